@@ -47,3 +47,23 @@ pub open spec fn plain_ty(ty: Ty) -> bool {
     !(ty is Any) && !(ty is Optional) && !(ty is ErrorUnion) && !(ty is Distinct) && !(ty is EnumVariant)
     && !(ty is Unknown) && !(ty is Enum)
 }
+
+/// two different nominal types of the same kind, directly or as the element type of fixed-size
+/// arrays (of any nesting depth): the elements of `[3]Meters` are values of `Meters`
+pub open spec fn nominal_clash(a: Ty, b: Ty) -> bool decreases a {
+    (same_kind_nominal(a, b) && nominal_uid(a) != nominal_uid(b))
+    || match (a, b) {
+        (Ty::ConcreteArray { sub_ty: fa, .. }, Ty::ConcreteArray { sub_ty: fb, .. }) => nominal_clash(*fa.0, *fb.0),
+        (Ty::AnonArray { sub_ty: fa, .. }, Ty::ConcreteArray { sub_ty: fb, .. }) => nominal_clash(*fa.0, *fb.0),
+        _ => false,
+    }
+}
+pub proof fn lemma_no_self_clash(a: Ty)
+    ensures !nominal_clash(a, a)
+    decreases a
+{
+    match a {
+        Ty::ConcreteArray { sub_ty, .. } => { lemma_no_self_clash(*sub_ty.0); }
+        _ => {}
+    }
+}
